@@ -166,6 +166,7 @@ class Eval:
             if a is None or b is None:
                 return None, exp
             sig = f"add:{type(a).__name__}+{type(b).__name__}"
+            before = (list(self.elems(a)), list(self.elems(b)))
             try:
                 r = a + b
             except Exception as ex:  # noqa: BLE001
@@ -178,6 +179,7 @@ class Eval:
             if a is None:
                 return None, exp
             sig = f"{'rmul' if refl else 'mul'}:{type(a).__name__}*{n}"
+            before = (list(self.elems(a)), [])
             try:
                 r = (n * a) if refl else (a * n)
             except Exception as ex:  # noqa: BLE001
@@ -186,6 +188,16 @@ class Eval:
         self.rec.count("nodes_checked" if self.domain == "moves" else "op_nodes_checked")
         got = self.elems(r)
         sigkey = sig.rsplit("*", 1)[0] if e[0] == "mul" else sig
+        # the operands themselves must still contain exactly what they contained (an expression may use them again)
+        after = (list(self.elems(a)), list(self.elems(b)) if e[0] == "add" else [])
+        for side, (x, y) in enumerate(zip(before, after)):
+            if len(x) != len(y) or any(p is not q for p, q in zip(x, y)):
+                self.rec.viol(
+                    f"C17/{self.domain}/operand-mutated/{sigkey}",
+                    f"{show(e)}: the {'left' if side == 0 else 'right'} operand was changed by the operation ({len(x)} -> {len(y)} elements)",
+                    {"expr": show(top), "node": show(e)},
+                )
+                return None, exp
         if len(got) != len(exp) or any(x is not y for x, y in zip(got, exp)):
             self.rec.viol(
                 f"C17/{self.domain}/elements/{sigkey}",
